@@ -250,9 +250,13 @@ func (c *countCtx) Done() <-chan struct{} {
 	c.left--
 	return nil
 }
+// Err is a poll too: code may ask `ctx.Err() != nil` instead of selecting on Done()
 func (c *countCtx) Err() error {
 	if c.left == 0 {
 		return context.Canceled
+	}
+	if c.left > 0 {
+		c.left--
 	}
 	return nil
 }
